@@ -264,7 +264,11 @@ def readFrame (mode : Mode) (datalen : Nat) : (fuel : Nat) → St → Bytes → 
       else readData mode { st with dataOfs := 0 } av [] datalen
     | _, _ => (.oob, st, av)
 
-/-- `coap_ws_read(session, data, datalen)` -/
+/-- `coap_ws_read(session, data, datalen)`.  `goto next_frame` is not bounded in the C code: every frame
+without data that is already in `rd_header` or can be read is skipped within the same call, so the fuel is the
+number of bytes at hand (every round consumes at least the two fixed header bytes).  [A constant fuel of
+`fsCap + 2` made the model stop after 16 empty frames and leave a complete following frame in `rd_header`
+until the next read event, which the C code does not do.] -/
 def wsRead (mode : Mode) (accept : Bytes) (datalen : Nat) (st : St) (av : Bytes) : Ret × St × Bytes :=
   if !st.up then
     match rdHttpHeader mode accept (av.length + 2) st av with
@@ -273,8 +277,8 @@ def wsRead (mode : Mode) (accept : Bytes) (datalen : Nat) (st : St) (av : Bytes)
     | R.ok (st', av') =>
       if !st'.up then (.zero, st', av')
       else if st'.rdHeader.length = 0 then (.zero, st', av')
-      else readFrame mode datalen (fsCap + 2) st' av'
-  else readFrame mode datalen (fsCap + 2) st av
+      else readFrame mode datalen (av'.length + fsCap + 2) st' av'
+  else readFrame mode datalen (av.length + fsCap + 2) st av
 
 /-- how a `coap_read_session` call ends -/
 inductive Sess where
